@@ -64,7 +64,7 @@ func runC14(p *Prog, r *Result) {
 	r.Rule("R14a", "every Node implementor constructible from Parser methods has a case in Walk's type switch", 43)
 	r.Rule("R14b", "each Walk case visits every child/comment field of its type exactly once on every path (nil guards on a prefix of the field excepted)", 91)
 	r.Rule("R14c", "Walk protocol: f(node) first, false returns before children; single f(nil) after the switch on every normal path; no other call of f", 5)
-	r.Rule("R14d", "Preorder: one Walk call; callback yields only non-nil nodes under ok&&yield and returns ok", 4)
+	r.Rule("R14d", "Preorder: one Walk call; callback yields only non-nil nodes under ok&&yield and returns ok; the iterator keeps no state between iterations", 5)
 	r.Rule("R14h", "visiting helpers walkList/walkNilable/walkComments visit every (non-nil) element exactly once", 3)
 
 	walkFD := p.FuncDecl("syntax", "Walk")
@@ -886,6 +886,42 @@ func checkPreorder(p *Prog, r *Result, info *types.Info, wh walkHelpers) {
 	rid, _ := ast.Unparen(walkCalls[0].Args[0]).(*ast.Ident)
 	r.Check(rid != nil && info.Uses[rid] == rootParam, "R14d", "syntax.Preorder#root", walkCalls[0].Pos(), "Walk is applied to Preorder's argument", "Walk is not applied to the node given to Preorder")
 
+	// R14d (re-iterable): the returned iterator writes no variable of the enclosing function, so every
+	// iteration of the same Seq starts from the same state
+	for _, st := range fd.Body.List {
+		rs, isRet := st.(*ast.ReturnStmt)
+		if !isRet || len(rs.Results) != 1 {
+			continue
+		}
+		lit, isLit := ast.Unparen(rs.Results[0]).(*ast.FuncLit)
+		if !isLit {
+			r.Undecided("R14d", "syntax.Preorder#iterator", rs.Pos(), "Preorder does not return a function literal")
+			continue
+		}
+		var shared []string
+		ast.Inspect(lit.Body, func(n ast.Node) bool {
+			var targets []ast.Expr
+			switch x := n.(type) {
+			case *ast.AssignStmt:
+				if x.Tok != token.DEFINE {
+					targets = x.Lhs
+				}
+			case *ast.IncDecStmt:
+				targets = []ast.Expr{x.X}
+			}
+			for _, t := range targets {
+				if id, ok := ast.Unparen(t).(*ast.Ident); ok {
+					if o := info.ObjectOf(id); o != nil && o.Pos() >= fd.Body.Pos() && o.Pos() < lit.Pos() {
+						shared = append(shared, id.Name)
+					}
+				}
+			}
+			return true
+		})
+		r.Check(len(shared) == 0, "R14d", "syntax.Preorder#iterator keeps no state between iterations", lit.Pos(), "the returned function only writes its own variables",
+			fmt.Sprintf("the returned iterator writes %v, declared outside it: a second iteration over the same sequence starts from the state the first one left (e.g. an early break makes every later iteration yield nothing)", shared))
+	}
+
 	cb, ok := ast.Unparen(walkCalls[0].Args[1]).(*ast.FuncLit)
 	if !ok {
 		r.Undecided("R14d", "syntax.Preorder#callback", walkCalls[0].Pos(), "the Walk callback is not a function literal")
@@ -1036,6 +1072,8 @@ func nilTestIdent(info *types.Info, cond ast.Expr, obj types.Object) (match bool
 }
 
 var c14Controls = []Control{
+	{Name: "preorder-stop-flag-shared", Rule: "R14d", WantKey: "iterator keeps no state", File: "syntax/walk.go",
+		Mutate: ctlReplaceAnywhere("\treturn func(yield func(Node) bool) {\n\t\tok := true\n", "\tok := true\n\treturn func(yield func(Node) bool) {\n")},
 	{Name: "drop-visit-Stmt.Redirs", Rule: "R14b", WantKey: "*Stmt/field Redirs", File: "syntax/walk.go",
 		Mutate: ctlReplace("Walk", "walkList(node.Redirs, f)", "", 0)},
 	{Name: "double-visit-ParenTest.X", Rule: "R14b", WantKey: "*ParenTest/field X", File: "syntax/walk.go",
